@@ -262,11 +262,23 @@ def InnerOK (mn : Int) (d : Nat) (inner : List BRule) : Prop :=
   ∀ (s : BState) (startLine endLine : Nat), s.lineMax + 1 ≤ s.lines.length → endLine ≤ s.lineMax → Lv mn d s endLine →
     ∃ s', blockTokenize inner mn s startLine endLine = .ok s' ∧ s.FrameEq s' ∧ LinePost endLine startLine s s'
 
+/-- the nested run inside a matched quote, and how the result's tokens come from it -/
+def QuoteRun (mn : Int) (d : Nat) (inner : List BRule) (s : BState) (line : Nat) (s' : BState) : Prop :=
+  ∃ (next : Nat) (s2 s4 : BState), s2.tokens = s.tokens ∧ s2.level = s.level ∧
+    (({ s2 with blkIndent := 0 }).pushFull "blockquote_open" "blockquote" 1 (some (line, 0)) none "" ">" "").lineMax + 1
+      ≤ (({ s2 with blkIndent := 0 }).pushFull "blockquote_open" "blockquote" 1 (some (line, 0)) none "" ">" "").lines.length ∧
+    next ≤ (({ s2 with blkIndent := 0 }).pushFull "blockquote_open" "blockquote" 1 (some (line, 0)) none "" ">" "").lineMax ∧
+    Lv mn d (({ s2 with blkIndent := 0 }).pushFull "blockquote_open" "blockquote" 1 (some (line, 0)) none "" ">" "") next ∧
+    blockTokenize inner mn (({ s2 with blkIndent := 0 }).pushFull "blockquote_open" "blockquote" 1 (some (line, 0)) none "" ">" "") line next = .ok s4 ∧
+    s'.tokens = ((s4.pushFull "blockquote_close" "blockquote" (-1) none none "" ">" "").tokens).modify s.tokens.length
+      (fun t => t.setMap (some (line, s4.line)))
+
 theorem quote_shape (mn : Int) (d : Nat) (codeOn : Bool) (terms : List BRule) (hin : ∀ t ∈ terms, SilentInert t)
     (inner : List BRule) (hinner : InnerOK mn d inner) (s : BState) (line endLine : Nat)
     (hc : CallCtx (Lv mn (d + 1)) s line endLine) :
     ruleBlockquote codeOn terms inner mn s line endLine false = .ok (false, s) ∨
-    ∃ s', ruleBlockquote codeOn terms inner mn s line endLine false = .ok (true, s') ∧ s.FrameEq s' ∧ line < s'.line ∧ s'.line ≤ s.lineMax := by
+    ∃ s', ruleBlockquote codeOn terms inner mn s line endLine false = .ok (true, s') ∧ s.FrameEq s' ∧ line < s'.line ∧ s'.line ≤ s.lineMax
+      ∧ QuoteRun mn d inner s line s' := by
   obtain ⟨l0, hl0, _, _⟩ := hc.here
   have hg := getL_of_here hl0
   simp only [ruleBlockquote, hg, Bool.false_eq_true, if_false]
@@ -304,7 +316,14 @@ theorem quote_shape (mn : Int) (d : Nat) (codeOn : Bool) (terms : List BRule) (h
           simp only []
           omega)
       simp only [hrun]
-      refine ⟨_, rfl, ?_, ?_, ?_⟩
+      have hLv3 : Lv mn d (({ s2 with blkIndent := 0 }).pushFull "blockquote_open" "blockquote" 1 (some (line, 0)) none "" ">" "") next := by
+        have hL := hc.extra
+        unfold Lv at *
+        rw [pushFull_level_open]
+        have : s2.level = s.level := hv2
+        simp only []
+        omega
+      refine ⟨_, rfl, ?_, ?_, ?_, ⟨next, s2, s4, ht2, hv2, by simpa using hlm3.1, by simpa using hlm3.2.1, hLv3, hrun, ?_⟩⟩
       · -- frame
         refine ⟨?_, ?_, ?_, ?_⟩
         · show (restoreLines _ line saved).lines = s.lines
@@ -346,6 +365,12 @@ theorem quote_shape (mn : Int) (d : Nat) (codeOn : Bool) (terms : List BRule) (h
         have h3 : (({ s2 with blkIndent := 0 }).pushFull "blockquote_open" "blockquote" 1 (some (line, 0)) none "" ">" "").lineMax = s2.lineMax := rfl
         rw [h3] at this
         omega
+      · show (restoreLines _ line saved).tokens = _
+        rw [(restoreLines_fields saved _ line).2.2.2.1]
+        have : s2.tokens.length = s.tokens.length := by rw [ht2]; rfl
+        show List.modify _ s2.tokens.length _ = _
+        rw [this]
+        rfl
 
 theorem ruleOK_blockquote (mn : Int) (d : Nat) (codeOn : Bool) (terms : List BRule) (hin : ∀ t ∈ terms, SilentInert t)
     (inner : List BRule) (hinner : InnerOK mn d inner) : RuleOK (Lv mn (d + 1)) (ruleBlockquote codeOn terms inner mn) := by
@@ -354,7 +379,7 @@ theorem ruleOK_blockquote (mn : Int) (d : Nat) (codeOn : Bool) (terms : List BRu
   · intro s line endLine hc
     rcases key s line endLine hc with h | ⟨s', h, _⟩ <;> exact ⟨_, _, h⟩
   · intro s line endLine s' hc h
-    rcases key s line endLine hc with h' | ⟨s'', h', _, h2, h3⟩
+    rcases key s line endLine hc with h' | ⟨s'', h', _, h2, h3, _⟩
     · rw [h'] at h; cases h
     · rw [h'] at h; cases h; exact ⟨h2, h3⟩
   · intro s line endLine s' hc h
